@@ -359,6 +359,10 @@ func (sess *session) Walk(ctx context.Context, fid Fid, newfid Fid,
 		// Re-use fid for result of walk.
 		// Note: It is still locked.
 		ref.Ent.Clunk(ctx) // TODO(frobnitzem): note - ignoring error here
+		// Clunk released whatever was open on the old entry:
+		// the fid now names a new entry that is not open.
+		ref.File = nil
+		ref.Mode = 0
 	} else {
 		// We have increased the size of sess.refs by 1.
 		// both ref and newref are locked
